@@ -85,10 +85,14 @@ func (ex *Exec) lookupNative(fn *ssa.Function, name string) NativeFn {
 			return nf
 		}
 	}
+	if nf, ok := groupNatives[name]; ok {
+		return nf
+	}
 	return nil
 }
 
 var cryptoNatives map[string]NativeFn
+var groupNatives map[string]NativeFn
 
 func (ex *Exec) zeroOKGlobal(g *ssa.Global) bool {
 	if g.Pkg == nil {
